@@ -53,7 +53,7 @@ static int parse_num8(
     return -1;
   }
 
-  if (num < low && num > high)
+  if (num < low || num > high)
   {
     print_error_range(asm_context, "Operand", low, high);
     return -1;
@@ -86,7 +86,7 @@ static int parse_num16(
     return -1;
   }
 
-  if (num < low && num > high)
+  if (num < low || num > high)
   {
     print_error_range(asm_context, "Operand", low, high);
     return -1;
